@@ -76,6 +76,8 @@ def measures (v : View) (dens : List (Option Nat × Option Nat × Bool)) (mats :
     ("maximal", maxJ false),
     ("maximal:strict", maxJ true),
     ("duplicates", setToJson (dupEdges v)),
+    ("duplicates_exact", if v.eids.all (fun e => match e with | .atom _ => true | _ => false)
+        then setToJson (duplicates v) else Json.str "unmodelled"),
     ("degree_pairs", Json.arr ((degPairs v).map (fun p => pairJ (natJson p.1) (natJson p.2))).toArray),
     ("incidence_matrix", Json.arr (mats.map (fun (o, _, _) =>
         Json.mkObj [("rows", idsToJson v.nodes), ("cols", idsToJson (eidsOf v o)), ("M", matJ (incMatrix v o))])).toArray),
